@@ -154,12 +154,15 @@ structure Opts where
 structure ClassMeta where
   name : String
   opts : Opts
+  uid : Nat := 0                -- identity of the class object (two classes may share a name); `$defs` mode only
   deriving Repr, Inhabited
 
 /-- attributes of a `Rule` subclass that are not constraints -/
 structure RuleMeta where
   primitive : Option String     -- class attribute `primitive`
   format : Option String        -- class attribute `format`
+  name : String := ""           -- `__qualname__` of the rule class (`$defs` mode only)
+  uid : Nat := 0                -- identity of the rule class (`$defs` mode only)
   deriving Repr, Inhabited
 
 structure EnumDecl where
@@ -179,6 +182,9 @@ inductive Ty where
   | any                                                    -- `Rule` without origin (`Any`)
   | plain (p : Prim)                                       -- a builtin class
   | scalar (p : Prim) (m : RuleMeta) (cs : Cons)           -- constrained type without arguments
+  | derived (p : Prim) (m : RuleMeta) (cs0 : Cons) (site : Nat) (cs : Cons)
+      -- a named rule `scalar p m cs0` narrowed at one use site (`x: PositiveInt = Field(le=1000)`): a new rule whose
+      -- `__origin__` is the named rule and whose own validators are `cs`; `site` = identity of the new rule class
   | seq (p : Prim) (m : RuleMeta) (cs : Cons) (item : Ty)  -- `List[T]`, `Set[T]`, `Tuple[T, ...]`
   | tup (m : RuleMeta) (cs : Cons) (items : List Ty)       -- `Tuple[T1, …, Tn]`
   | map (m : RuleMeta) (cs : Cons) (key val : Ty)          -- `Dict[K, V]`
@@ -522,6 +528,10 @@ def gen (cfg : Cfg) (t : Ty) : Obj :=
   | .any => []
   | .plain p => plainSchema p
   | .scalar p m cs => ruleHead (some p) m ++ consSchema (rulePrimitive (some p) m) cs
+  | .derived p m cs0 _ cs =>
+    -- generator.py:175-199: `data = dict(generate_for_type(origin))` is the named rule's schema (a copy!),
+    -- `primitive = data.get('type')`, then the site's own constraints are added
+    ruleHead (some p) m ++ consSchema (rulePrimitive (some p) m) cs0 ++ consSchema (rulePrimitive (some p) m) cs
   | .seq p m cs item =>
     ruleHead (some p) m ++ consSchema (rulePrimitive (some p) m) cs ++ [("items", .obj (gen cfg item))]
   | .tup m cs items =>
@@ -751,6 +761,7 @@ def conforms (R : Rx) (t : Ty) (r : PV) : Bool :=
   | .any => true
   | .plain p => plainOk p r
   | .scalar p _ cs => plainOk p r && satAll R cs r
+  | .derived p _ cs0 _ cs => plainOk p r && satAll R cs0 r && satAll R cs r
   | .seq p _ cs item =>
     plainOk p r && satAll R cs r && (match elemsOf r with
       | some xs => xs.all fun x => conforms R item x
@@ -1080,6 +1091,9 @@ def wfTy (t : Ty) : Bool :=
   | .any => true
   | .plain _ => true
   | .scalar p m cs => consOk (scalarCons p) cs && metaOk m (getPrimitive p)
+  | .derived p m cs0 _ cs =>
+    consOk (scalarCons p) cs0 && consOk (scalarCons p) cs && metaOk m (getPrimitive p) &&
+      cs.all fun c => !(cs0.map (·.1)).contains c.1
   | .seq p m cs item =>
     (p == .list || p == .set || p == .tuple) && consOk arrayCons cs && metaOk m "array" && wfTy item
   | .tup m cs items => consOk arrayCons cs && metaOk m "array" && !items.isEmpty && wfTys items
